@@ -77,6 +77,14 @@ func runStoreSeqFrom(c *fw.Ctx, spec sys.StoreSpec, ops []sop, seq []int, from i
 				}
 			}
 		}
+		if extend && spec.Backend == "mem" && spec.MaxKB > 0 {
+			// the size enforcer's running total is private state: probe it at the end of every
+			// history (the store of a history is thrown away afterwards)
+			if p := r.accountingProbe(); p != "" {
+				c.Violate("mem|size-accounting-drifted", p+"\nhistory: "+strings.Join(cas.Ops, " ; "), cas)
+				extend = false
+			}
+		}
 	})
 	if panicked {
 		return "", false, false
